@@ -28,6 +28,13 @@ func VerifNewTestScope(prefix string, tags map[string]string, shards uint) TestS
 	return newRootScope(ScopeOptions{Prefix: prefix, Tags: tags, testScope: true, registryShardCount: shards}, 0)
 }
 
+// VerifNewTestScopeOpts is a test scope (no reporter, snapshots) built from full options.
+func VerifNewTestScopeOpts(opts ScopeOptions, shards uint) TestScope {
+	opts.testScope = true
+	opts.registryShardCount = shards
+	return newRootScope(opts, 0)
+}
+
 // VerifReportOnce runs one report pass exactly as the ticker loop does.
 func VerifReportOnce(s Scope) { s.(*scope).reportLoopRun() }
 
